@@ -460,6 +460,7 @@ type FuncContract struct {
 	Pure       bool
 	PureDef    *Clause // closures: result == E
 	PanicsNever bool
+	IterBody   bool // closure passed to a Range-style iterator: its requires must be re-established when it returns true
 	Inline     bool
 	Trusted    bool // extern: no body is verified
 	TrustReason string
@@ -527,7 +528,7 @@ var sinceRe = regexp.MustCompile(`\s+since\s+"([^"]+)"$`)
 var usingRe = regexp.MustCompile(`\s+using\s+([A-Za-z0-9_, \-]+)$`)
 var propsRe = regexp.MustCompile(`\s+props\s+([A-Z0-9, ]+)$`)
 
-var directiveKw = []string{"interface ", "trusted", "func ", "extern ", "requires ", "ensures ", "as-is ", "modifies ", "loop ", "pure-def ", "pure", "panics-never", "inline", "opaque", "spec ", "axiom ", "lemma ", "ghost ", "invariant ", "package ", "const ", "props "}
+var directiveKw = []string{"interface ", "trusted", "func ", "extern ", "requires ", "ensures ", "as-is ", "modifies ", "loop ", "pure-def ", "pure", "panics-never", "iterator-body", "inline", "opaque", "spec ", "axiom ", "lemma ", "ghost ", "invariant ", "package ", "const ", "props "}
 
 func isDirective(l string) bool {
 	for _, k := range directiveKw {
@@ -740,6 +741,8 @@ func (sp *Spec) ParseContractFile(path, defaultPkg string) error {
 			cur.Pure = true
 		case l == "panics-never":
 			cur.PanicsNever = true
+		case l == "iterator-body":
+			cur.IterBody = true
 		case l == "inline":
 			cur.Inline = true
 		case l == "opaque":
